@@ -314,6 +314,11 @@ async fn run_scenario(sc: &Value, seed: u64) -> Vec<Value> {
         if pi == 0 {
             // end of the fault phase: whatever is still held is released now (late duplicates)
             pair.proxy.flush().await;
+            // EXT scenario: the peer's SCTP stack "restarts" (fresh INIT with a different tag) after the fault phase
+            if let Some(side) = sc["restart_init_from"].as_str() {
+                let ok = pair.proxy.forge_init(side.chars().next().unwrap(), 0x5EED_0001, 0x0100_0000).await;
+                verif::emit("app", "H", "restart_init", json!({"from": side, "sent": ok}));
+            }
             let q = settle(&mut col, settle_ms, deadline_ms, !stalled_any).await;
             verif::emit("app", "H", "flushed", json!({"settled": q}));
         }
